@@ -220,6 +220,9 @@ struct Edge {
   std::vector<Node*> validations_;
   Node* dyndep_ = nullptr;
   BindingEnv* env_ = nullptr;
+  /// Whether env_ is a scope of this edge alone.  An edge without bindings of
+  /// its own shares the scope of the file it was declared in.
+  bool has_own_env_ = false;
   size_t id_ = 0;
   int64_t critical_path_weight_ = -1;
 
